@@ -29,7 +29,7 @@ type Case struct {
 	Field  string `json:"field"`
 	Class  string `json:"class"`
 	Val    string `json:"val"`
-	Mode   string `json:"mode"` // live: claims the node's current height; ahead: current+1; behind: current-2
+	Mode   string `json:"mode"` // live: claims the node's current height; ahead: current+2; behind: current-2
 	Chan   byte   `json:"chan"`
 	Long   bool   `json:"long"` // also wait one queryMaj23Routine period (2 s)
 }
@@ -193,7 +193,7 @@ func WorkerMain() {
 				wg.Add(1)
 				go func(i int) {
 					defer wg.Done()
-					outs[i] = runCase(node, hw, cfg, cs[i])
+					outs[i] = runCase(node, hw, cs[i])
 				}(i)
 			}
 			wg.Wait()
@@ -213,7 +213,7 @@ func newCtx(n *Node, mode string, h0 int64, nonce int) *genCtx {
 	c := &genCtx{mode: mode, H0: h0, nonce: nonce, valAddr: n.Key.PubKey().Address()}
 	switch mode {
 	case "ahead":
-		c.T = h0 + 1
+		c.T = h0 + 2 // the script is in place a whole height before the node gets there
 	case "behind":
 		c.T = h0 - 2
 	default:
@@ -302,7 +302,7 @@ func prsDigest(p *p2p.Peer, t int64) string {
 // runCase runs one case; when the script of a live/ahead case reaches the node
 // only after the node has left the addressed height (an overloaded machine), the
 // attempt does not count and the case is run again with a fresh attacker.
-func runCase(n *Node, hw *heightWatch, cfg interface{}, c *Case) (o *Outcome) {
+func runCase(n *Node, hw *heightWatch, c *Case) (o *Outcome) {
 	for attempt := 1; ; attempt++ {
 		o = runAttempt(n, hw, c, attempt)
 		if !o.Late || attempt == 4 {
@@ -328,10 +328,10 @@ func runAttempt(n *Node, hw *heightWatch, c *Case, attempt int) (o *Outcome) {
 	defer func() {
 		att.stop()
 		dl := time.Now().Add(5 * time.Second)
-		for n.Sw.Peers().Size() > 0 && time.Now().Before(dl) {
+		for att.nodeSidePeer(n) != nil && time.Now().Before(dl) {
 			time.Sleep(2 * time.Millisecond)
 		}
-		if n.Sw.Peers().Size() > 0 {
+		if att.nodeSidePeer(n) != nil {
 			o.Detail += " [node still lists the attacker 5 s after its connection closed]"
 		}
 	}()
@@ -343,7 +343,7 @@ func runAttempt(n *Node, hw *heightWatch, c *Case, attempt int) (o *Outcome) {
 	// the script is sent right after a height change so that it arrives (the
 	// MConnection flushes 100 ms after the first write) within that height
 	h0, age := hw.get()
-	if c.Mode != "behind" && age > freshHeightAge {
+	if c.Mode == "live" && age > freshHeightAge {
 		if !hw.waitChange(caseDeadline) {
 			o.Class, o.Detail = "setup", "the node made no progress before the injection"
 			return
@@ -412,7 +412,7 @@ func runAttempt(n *Node, hw *heightWatch, c *Case, attempt int) (o *Outcome) {
 	tDel := time.Now()
 	storeAtDel := n.Store.Height()
 	if hd := n.Height(); att.nodeSidePeer(n) != nil && sp0 != nil && sp0.group == "consensus" &&
-		((c.Mode == "live" && hd != ctx.T) || (c.Mode == "ahead" && hd > ctx.T)) {
+		((c.Mode == "live" && hd != ctx.T) || (c.Mode == "ahead" && hd >= ctx.T)) {
 		o.Late, o.Class = true, "late"
 		o.Detail = fmt.Sprintf("the script for height %d reached the node at height %d", ctx.T, hd)
 		return
